@@ -442,6 +442,13 @@ class Engine:
                         if self.merge_filter is None or self.merge_filter(F.ci):
                             self.drop_dead(W)
                             key = self.keyer.key(W)
+                            hk = hash(key)
+                            if hk in W.recent:
+                                # the very same control state + heap again on this path: the program loops forever
+                                W.done = True
+                                W.exc = StepLimit("the same state repeats at a loop head (non-termination)")
+                                continue
+                            W.recent = (W.recent + (hk,))[-8:]
                             prog = self.progress_fn(W) if self.progress_fn else (self.keyer.progress, W.steps)
                             stats["parks"] += 1
                             if key in parked:
